@@ -159,6 +159,11 @@ class Ctx:
             print("VIOLATION property=%s replay=%s%s" % (self.prop, path, tail))
             print("  obligation: %s\n  %s" % (v.obligation, v.what), file=sys.stderr)
             code = EXIT_VIOLATION
+        if self.violations:
+            byob = {}
+            for v in self.violations:
+                byob[v.obligation] = byob.get(v.obligation, 0) + 1
+            print("  failing obligations: %s" % ", ".join(sorted(byob)), file=sys.stderr)
         self.write_evidence(len(self.violations))
         return code
 
